@@ -96,7 +96,9 @@ MeekPost(T, a) ==
   THEN a.tag \in {"begin", "tie", "end"} \/ a.mc = "elect" \/ a.mc \in {"defeat_omega", "defeat_stable"}
   ELSE a.tag \in {"iterate", "end"}
 (* meek/warren: `begin' and the first `round' show the first-preference tallies, before any distribution *)
-PreFirstDist(T, k) == k <= 2 /\ \A i \in 1 .. k : T.acts[i].tag \in {"begin", "round"}
+PreFirstDist(T, k) == /\ k <= 2 /\ \A i \in 1 .. k - 1 : T.acts[i].tag \in {"begin", "round"}
+                      /\ \/ T.acts[k].tag \in {"begin", "round"}
+                         \/ (k = 2 /\ T.acts[1].tag = "begin" /\ T.acts[k].mc \in {"elect_remaining", "defeat_remaining"})   \* no round at all: logged before its own redistribution
 C02_meek(T)   == IF T.fam # "meek" THEN {} ELSE
                  {k \in 1 .. NA(T) : LET a == T.acts[k] IN
                     /\ TotalAt(T, a) # T.n * T.S
